@@ -661,8 +661,8 @@ pub fn c03_threads(cfg: C03Cfg, bound: u32) -> ThHarness {
                                 break;
                             }
                             // A call that finds completions ready hands those over and does not enter the kernel.
-                            let ready = simk::with(|k| k.rings[0].cq_ready() != 0 || !k.rings[0].overflow.is_empty());
-                            shared.lock().unwrap().0.events.push((0, if ready { "ring-poll-begin:ready".into() } else { "ring-poll-begin".into() }, crate::waker::tick()));
+                            let (ready, room0) = simk::with(|k| (k.rings[0].cq_ready() != 0 || !k.rings[0].overflow.is_empty(), k.rings[0].sq_pending() < k.rings[0].sq_entries));
+                            shared.lock().unwrap().0.events.push((0, format!("ring-poll-begin{}{}", if room0 { ":room0" } else { "" }, if ready { ":ready" } else { "" }), crate::waker::tick()));
                             talloc::track(|| {
                                 let _ = ring.poll(Some(Duration::from_secs(1)));
                             });
@@ -717,19 +717,21 @@ pub fn c03_threads(cfg: C03Cfg, bound: u32) -> ThHarness {
                     // poll began (completion case: the operation's lock orders
                     // them) or returned (queue-full case: "a subsequent call").
                     let after = if blocked_for_slot { last_end.2 } else { last_begin.2 };
-                    let mut begun: Option<(u64, bool)> = None;
+                    let mut begun: Option<(u64, bool, bool)> = None;
                     let mut complete_polls_after = Vec::new();
                     for (th, e, c) in &s.events {
                         if *th != 0 {
                             continue;
                         }
                         if e.starts_with("ring-poll-begin") {
-                            begun = Some((*c, e.ends_with(":ready")));
+                            begun = Some((*c, e.ends_with(":ready"), e.contains(":room0")));
                         } else if e.starts_with("ring-poll-end") {
-                            if let Some((b, ready)) = begun.take() {
+                            if let Some((b, ready, room0)) = begun.take() {
                                 // Freed queue space is demanded only of calls that go into the kernel (§11.1b):
-                                // one that starts with completions ready is followed by one that does.
-                                if b > after && !(blocked_for_slot && ready) {
+                                // one that starts with completions ready is followed by one that does. With a
+                                // kernel thread room can also appear while a call is already past its wake-up
+                                // step: there the demand is made of calls that start with room.
+                                if b > after && !(blocked_for_slot && ready) && !(blocked_for_slot && cfg.sqpoll && !room0) {
                                     complete_polls_after.push(e.clone());
                                 }
                             }
@@ -738,7 +740,7 @@ pub fn c03_threads(cfg: C03Cfg, bound: u32) -> ThHarness {
                     if blocked_for_slot {
                         // Queue-full case: a complete Ring::poll that returned with room must have woken it.
                         if complete_polls_after.iter().any(|e| e.contains(":room:")) {
-                            v.push(Violation::new("C03", "lost-wakeup/queue-space", &format!("{msg}: it waits for a submission slot, a later Ring::poll call ran to completion and returned with room in the queue, but the waker was never invoked")));
+                            v.push(Violation::new("C03", "lost-wakeup/queue-space", &format!("{msg}: it waits for a submission slot, a later Ring::poll call ran to completion and returned with room in the queue, but the waker was never invoked; events {:?}", s.events)));
                         }
                     } else {
                         // Completion case: was the readying completion consumed by a complete Ring::poll after the last poll began?
